@@ -48,8 +48,11 @@ UNITS = [
          functions=["<crypto::aespoly1305::Key as CryptoKey>::decrypt_data"],
          rewrites=[
              R_ERR,
-             Rw("Nonce::from_slice(&data[0..16])", "Nonce::from_slice(vslice(data, 0, 16))", why="slice range indexing -> stub with bounds precondition"),
-             Rw(r"Aes256CtrPoly1305Aes::new\(&self\.0\)\s*\.decrypt\(nonce, &data\[16\.\.\]\)\s*\.map_err\(.*\)", "vaead_decrypt(&self.0, &nonce, vslice(data, 16, data.len()))", regex=True,
+             Rw(r"&(?P<v>\w+)\[(?P<a>\w+)\.\.(?P<b>\w+)\]", r"vslice(\g<v>, \g<a>, \g<b>)", regex=True, count=None, why="slice range indexing -> stub with the bounds as precondition (out of range = panic)"),
+             Rw(r"&(?P<v>\w+)\[(?P<a>\w+)\.\.\]", r"vslice(\g<v>, \g<a>, \g<v>.len())", regex=True, count=None, why="slice range indexing -> stub with the bounds as precondition"),
+             Rw(r"(?P<v>\w+)\.split_at\((?P<m>\w+)\)", r"vsplit_at(\g<v>, \g<m>)", regex=True, count=None, why="slice::split_at -> stub with its panic condition as precondition"),
+             Rw(r"(?P<v>\w+)\.is_empty\(\)", r"vis_empty(\g<v>)", regex=True, count=None, why="slice::is_empty"),
+             Rw(r"Aes256CtrPoly1305Aes::new\(&self\.0\)\s*\.decrypt\((?P<n>[^,()]+), (?P<c>[^;]*?)\)\s*\.map_err\(.*\)", r"vaead_decrypt(&self.0, &\g<n>, \g<c>)", regex=True,
                 why="AEAD decrypt: Ok only if the MAC verifies (uninterpreted AEAD_OK / PT)"),
          ],
          contract="""
